@@ -90,6 +90,9 @@ def write_dataset(spec, directory):
         for c in spec["contigs"]:
             fh.write(">%s\n" % c["name"])
             s = c["seq"]
+            if spec.get("fasta_lowercase"):
+                # soft-masked reference: alternate upper / lower case runs of 7 bases (the sequence itself is unchanged)
+                s = "".join(ch.lower() if (i // 7) % 2 else ch for i, ch in enumerate(s))
             for i in range(0, len(s), 60):
                 fh.write(s[i:i + 60] + "\n")
     pysam.faidx(fa)
@@ -103,7 +106,12 @@ def write_dataset(spec, directory):
             fh.write("##contig=<ID=%s,length=%d>\n" % (c["name"], len(c["seq"])))
         fh.write("#CHROM\tPOS\tID\tREF\tALT\tQUAL\tFILTER\tINFO\n")
         for s in sorted(spec["snvs"], key=lambda s: (order[s["contig"]], s["pos"])):
-            fh.write("%s\t%d\t.\t%s\t%s\t.\t.\t.\n" % (s["contig"], s["pos"] + 1, s["alleles"][0], ",".join(s["alleles"][1:]) or "."))
+            if spec.get("split_snv_records") and len(s["alleles"]) > 2:
+                # a multi-allelic SNV given as several bi-allelic records at the same position (they are merged by the reader)
+                for alt in s["alleles"][1:]:
+                    fh.write("%s\t%d\t.\t%s\t%s\t.\t.\t.\n" % (s["contig"], s["pos"] + 1, s["alleles"][0], alt))
+            else:
+                fh.write("%s\t%d\t.\t%s\t%s\t.\t.\t.\n" % (s["contig"], s["pos"] + 1, s["alleles"][0], ",".join(s["alleles"][1:]) or "."))
     pysam.tabix_compress(vcf, vcf + ".gz", force=True)
     pysam.tabix_index(vcf + ".gz", preset="vcf", force=True)
     os.remove(vcf)
@@ -268,7 +276,7 @@ def cigar_for(draw, max_ref=30, simple=False):
 @st.composite
 def dataset_spec(draw, max_loci=3, max_snvs=5, max_samples=3, max_reads=25, paired=True, flags=True, multi_rg=True,
                  mapq_values=(0, 19, 20, 21, 60, 255), extra_bases=True, min_loci=1, n_contigs=None, simple_cigar=False,
-                 min_reads=3, locus_len=(12, 30), unique_qnames_across_samples=True, sub_rate=0, min_samples=1):
+                 min_reads=3, locus_len=(12, 30), unique_qnames_across_samples=True, sub_rate=0, min_samples=1, exotic=False):
     nc = n_contigs or draw(st.integers(1, 2))
     n_loci = draw(st.integers(min_loci, max_loci))
     contigs = []
@@ -279,15 +287,21 @@ def dataset_spec(draw, max_loci=3, max_snvs=5, max_samples=3, max_reads=25, pair
     for i in range(n_loci):
         per_contig[draw(st.integers(0, nc - 1))].append(i)
     li = 0
+    exo = exotic and draw(st.booleans())
     for c in range(nc):
         name = "chr%d" % (c + 1)
-        pos = draw(st.integers(5, 15))
+        pos = 0 if (exo and draw(st.booleans())) else draw(st.integers(5, 15))  # a locus at the very start of the contig
         layout = []
         for _ in per_contig[c]:
-            ln = draw(st.integers(*locus_len))
+            ln = draw(st.integers(1, 3)) if (exo and draw(st.integers(0, 3)) == 0) else draw(st.integers(*locus_len))
             layout.append((pos, pos + ln))
-            pos += ln + draw(st.integers(8, 25))
-        seq = draw(dna(pos + 20))
+            if exo and draw(st.integers(0, 3)) == 0 and ln > 4:
+                pos += draw(st.integers(1, ln - 1))  # the next locus overlaps this one
+            else:
+                pos += ln + draw(st.integers(8, 25))
+        end_pad = 0 if (exo and layout and draw(st.booleans())) else 20  # a locus ending on the last base of the contig
+        total_len = max([b for a, b in layout] + [pos]) + end_pad if end_pad else max([b for a, b in layout] + [1])
+        seq = draw(dna(max(total_len, 8)))
         contigs.append({"name": name, "seq": seq})
         for (a, b) in layout:
             loci.append({"contig": name, "start": a, "stop": b, "name": "L%d" % li})
@@ -295,6 +309,8 @@ def dataset_spec(draw, max_loci=3, max_snvs=5, max_samples=3, max_reads=25, pair
             n_s = draw(st.integers(0, max_snvs))
             poss = sorted(set(draw(st.lists(st.integers(a, b - 1), min_size=n_s, max_size=n_s))))
             for p in poss:
+                if any(s_["contig"] == name and s_["pos"] == p for s_ in snvs):
+                    continue  # overlapping loci share the SNV that is already there
                 n_alt = draw(st.sampled_from([1, 1, 1, 2, 3]))
                 others = [x for x in BASES if x != seq[p]]
                 alts = list(draw(st.permutations(others)))[:n_alt]
@@ -330,6 +346,8 @@ def dataset_spec(draw, max_loci=3, max_snvs=5, max_samples=3, max_reads=25, pair
                     lo = max(0, locus["start"] - span - 2)
                     hi = min(len(cseq[locus["contig"]]) - span - 1, locus["stop"] + 1)
                     pos = draw(st.integers(lo, max(lo, hi)))
+                    if pos + span + 1 > len(cseq[locus["contig"]]):
+                        continue  # does not fit on a very short contig
                     read = make_read(draw, cseq[locus["contig"]], ls, hap, pos, cigar, extra_bases, sub_rate)
                     read.update({"qname": "q%d" % qn, "rg": rg["id"], "contig": locus["contig"], "mapq": draw(st.sampled_from(mapq_values)), "qual": 30})
                     qn += 1
@@ -349,6 +367,8 @@ def dataset_spec(draw, max_loci=3, max_snvs=5, max_samples=3, max_reads=25, pair
                         else:
                             pos2 = draw(st.integers(lo, hi2))
                         hap2 = hap if draw(st.booleans()) else haps[draw(st.integers(0, 1))]
+                        if pos2 + span2 + 1 > len(cseq[locus["contig"]]):
+                            continue
                         mate = make_read(draw, cseq[locus["contig"]], ls, hap2, pos2, cigar2, extra_bases, sub_rate)
                         mate.update({"qname": read["qname"], "rg": rg["id"], "contig": locus["contig"], "mapq": draw(st.sampled_from(mapq_values)), "qual": 30})
                         read["flag"] = dict(read["flag"], paired=True, read1=True)
@@ -356,7 +376,11 @@ def dataset_spec(draw, max_loci=3, max_snvs=5, max_samples=3, max_reads=25, pair
                         mate["flag"] = {"paired": True, "read1": False}
                         mate["mate_pos"] = read["pos"]
                         b["reads"].append(mate)
-    return {"contigs": contigs, "snvs": snvs, "loci": loci, "bams": bams, "samples": samples}
+    out = {"contigs": contigs, "snvs": snvs, "loci": loci, "bams": bams, "samples": samples}
+    if exotic:
+        out["fasta_lowercase"] = draw(st.booleans())
+        out["split_snv_records"] = draw(st.booleans())
+    return out
 
 
 def make_read(draw, ref, ls, hap, pos, cigar, extra_bases, sub_rate=0):
